@@ -24,13 +24,6 @@ def msgOf (j : Json) : R Msg := do
   let data ← getHex j "data"
   match kind with
   | "response" => pure (.response data ((getBool j "key").toOption.getD false))
-  | "upgrade" =>
-    -- the upgrade boundary: leftover plaintext in the HTTP parser, then reads on the secured connection
-    let key ← getNat j "key"
-    let leftover ← getHex j "leftover"
-    let reads ← (← getArr j "reads").toList.mapM asHex
-    let fin := Rx.run (mockAead key) (upgrade leftover) reads
-    pure (Json.mkObj [("closed", fin.1.closed), ("out", jhex fin.2)])
   | "event" => pure (.event data)
   | "delayed" => pure (.delayed data)
   | _ => throw s!"bad msg kind {kind}"
@@ -57,6 +50,13 @@ def handle (j : Json) : R Json := do
     let key ← getNat j "key"
     let ps ← (← getArr j "payloads").toList.mapM asHex
     pure (Json.mkObj [("wire", jhex (wires (mockAead key) 0 ps))])
+  | "upgrade" =>
+    -- the upgrade boundary: leftover plaintext in the HTTP parser, then reads on the secured connection
+    let key ← getNat j "key"
+    let leftover ← getHex j "leftover"
+    let reads ← (← getArr j "reads").toList.mapM asHex
+    let fin := Rx.run (mockAead key) (upgrade leftover) reads
+    pure (Json.mkObj [("closed", Json.bool fin.1.closed), ("out", jhex fin.2)])
   | "event" =>
     -- create_hap_event around the given JSON body bytes
     let body ← getHex j "body"
